@@ -405,6 +405,32 @@ func ruleRowCache(p *Prog, r *Result) {
 	} else {
 		r.undecided("anchor: ProjectionPlan not found")
 	}
+	// who may use the per-row cache: only alias references. PUT and REMOVE evaluate all their pairs with one
+	// context and never clear it; that is sound only because their expressions cannot contain an alias
+	// reference (there are no named fields in those statements) and nothing else reads or writes the cache.
+	writerReach := p.Reach([]*ssa.Function{p.MethodByName("PutPlan", "execute"), p.MethodByName("RemovePlan", "execute")}, nil)
+	for _, acc := range []*ssa.Function{get, set} {
+		users := map[string]bool{}
+		bad := ""
+		for _, fn := range p.Funcs {
+			if !writerReach[fn] {
+				continue // not evaluation code PUT / REMOVE can reach (the SELECT projection reads the cache itself)
+			}
+			allInstrs(fn, func(in ssa.Instruction) {
+				if c := isStaticCallTo(in, acc); c != nil {
+					users[p.FName(fn)] = true
+					rt := ""
+					if fn.Signature.Recv() != nil {
+						rt = typeName(fn.Signature.Recv().Type())
+					}
+					if rt != "FieldReferenceExpr" {
+						bad = fmt.Sprintf("%s uses the per-row cache (%s at %s): PutPlan/RemovePlan evaluate every pair with one uncleared context, so a value cached for one pair would be seen by the next", p.FName(fn), acc.Name(), p.InstrPos(c))
+					}
+				}
+			})
+		}
+		r.add(bad == "" && len(users) > 0, "PutPlan|users|"+acc.Name(), p.Pos(acc.Pos()), firstNonEmpty(bad, fmt.Sprintf("only alias references use the per-row cache: %v", keysOf(users))))
+	}
 	r.note("loops_examined", nLoops)
 	r.floor("calls handing loop-variant rows and a context to cache-touching code", nCalls, 4)
 }
